@@ -12,6 +12,7 @@
  *   raw <path> <from> <n> <chunk>    decoder_process_int16 over samples [from, from+n) in chunks
  *   noise <seed> <n> <amp> <chunk>   same over generated noise
  *   frate <n>                        config_set_int(decoder_config(d), "frate", n)
+ *   barealign <hexword>:<s>:<d> ...  installs an alignment whose words have no phones (no alignment_populate)
  *   emptyalign                       installs an alignment with zero words as the decoder's current
  *                                    alignment (what decoder_alignment would hand back for a result
  *                                    without dictionary words), through the public structs
@@ -24,6 +25,7 @@
 #include <soundswallower/ckd_alloc.h>
 #include <soundswallower/configuration.h>
 #include <soundswallower/decoder.h>
+#include <soundswallower/dict.h>
 #include <soundswallower/err.h>
 #include <soundswallower/fsg_model.h>
 #include <soundswallower/logmath.h>
@@ -87,9 +89,10 @@ static void dump_json(double start, int level)
     }
     printf(" endsegs");
     if (level) {
-        /* the same object the JSON call used (reused while the frame count is unchanged); asked for also
-         * when the JSON call returned NULL, to see whether the alignment interface has anything to report */
-        alignment_t *al = decoder_alignment(d);
+        /* the alignment object the JSON call itself used (it is owned by the decoder's alignment search);
+         * when the call returned NULL, ask the alignment interface whether it has anything to report */
+        alignment_t *al = js ? (d->align ? ((state_align_search_t *)d->align)->al : NULL)
+                             : decoder_alignment(d);
         if (al == NULL)
             printf(" al=null");
         else {
@@ -189,8 +192,7 @@ int main(void)
             }
             f->start_state = 0;
             f->final_state = fin;
-            rc = decoder_set_fsg(d, f);
-            if (rc < 0) fsg_model_free(f);
+            rc = decoder_set_fsg(d, f);     /* consumes f, also when it fails (fsg_search_free) */
             printf("fsg %d\n", rc);
         } else if (!strcmp(w[0], "start")) {
             printf("start %d\n", decoder_start_utt(d));
@@ -225,6 +227,30 @@ int main(void)
             if (d->align)
                 ((state_align_search_t *)d->align)->frame = d->acmod->output_frame;
             printf("emptyalign %d %d\n", rc, d->align != NULL);
+        } else if (!strcmp(w[0], "barealign") && n >= 2) {
+            /* an alignment whose words have no phone entries (alignment_add_word without alignment_populate),
+             * installed like `emptyalign`: barealign <hexword>:<start>:<dur> ... */
+            alignment_t *al = alignment_init(d->d2p);
+            int added = 0;
+            for (i = 1; i < n; i++) {
+                char *c1 = strchr(w[i], ':'), *c2 = c1 ? strchr(c1 + 1, ':') : NULL;
+                size_t len;
+                unsigned char *k;
+                int32 wid;
+                if (!c2) continue;
+                *c1 = 0;
+                k = vf_parse_hex(w[i], &len);
+                wid = dict_wordid(d->dict, (char *)k);
+                free(k);
+                if (wid < 0) continue;
+                alignment_add_word(al, wid, atoi(c1 + 1), atoi(c2 + 1));
+                added++;
+            }
+            if (d->align) search_module_free(d->align);
+            d->align = state_align_search_init("_state_align", d->config, d->acmod, al);
+            if (d->align)
+                ((state_align_search_t *)d->align)->frame = d->acmod->output_frame;
+            printf("barealign %d %d\n", added, d->align != NULL);
         } else if (!strcmp(w[0], "json") && n == 3) {
             dump_json(strtod(w[1], NULL), atoi(w[2]));
         } else if (!strcmp(w[0], "free")) {
